@@ -370,6 +370,11 @@ for _fn, _ok in (("size", (1, 2)), ("len", (1,)), ("len_trim", (1,))):
             continue
         _args = ", ".join(["s", "1", "2"][:_n])
         ILLEGAL.append("void f(char *s, int *a +rank(1), int n +implied(%s(%s)))" % (_fn, _args))
+# input.rst, intent: "Nonpointer arguments can only be intent(in)": every by-value type with every other intent
+for _t in ("int", "double", "bool", "long", "size_t"):
+    for _i in ("out", "inout", "OUT", "INOUT"):
+        ILLEGAL.append("void f(%s n +intent(%s))" % (_t, _i))
+        ILLEGAL.append("void f(int *a +rank(1), %s n +intent(%s))" % (_t, _i))
 ILLEGAL = list(dict.fromkeys(ILLEGAL))
 
 
